@@ -15,10 +15,10 @@ class C09(Prop):
     gen_names = ("g_merge_too_few", "g_ok_not_ready", "g_count_not_ready", "g_ok_no_slot", "g_ok_setmsg_drop",
                  "g_ok_clear_done", "g_ok_ready_absent", "g_ok_msg_absent", "g_ok_is_accepted", "g_ok_any_rejected",
                  "g_cnt_no_slot", "g_cnt_set_drop", "g_cnt_clear_done", "g_cnt_ready_absent", "handler.go")
-    rule = ("histories for the real NewMergeHandler with 2-4 scripted children, one message in flight at a time: 1-5 "
+    rule = ("histories for the real NewMergeHandler with 2-4 (4%: 13-16) scripted children, one message in flight at a time: 1-5 "
             "EVENT/COUNT requests (ids from 3 event ids / 2 subscription ids, re-used one after the other), up to 4 in "
             "flight, every child answers every request once (FIFO per child and id) with random verdict, prefix, text "
-            "resp. count 0..4 and approximate flag, replies interleaved at random; some unsolicited replies, 8% cut short; "
+            "resp. count 0..4 (8%: 2^63-1, 2^63, 2^63+10, 2^64-2, 2^64-1) and approximate flag, replies interleaved at random; some unsolicited replies, 8% cut short; "
             "18% of the steps are REQ traffic (client REQ / CLOSE, child EOSE) mostly under the id of an EVENT or COUNT "
             "in flight or of the COUNT id universe (a CLOSE or REQ must not disturb the aggregation); first, in every "
             "tier, 276 enumerated histories: one EVENT/COUNT, n=2,3, each reply order, a client CLOSE resp. REQ with "
